@@ -566,7 +566,7 @@ class Frame(ContainerOperand):
                 fill_value=fill_value,
                 own_index=True,
                 own_columns=True,
-                )
+                ).rename(name)
         for container in containers_iter:
             values = []
             for col, dtype_at_col in post.dtypes.items():
